@@ -115,6 +115,13 @@ func (c *runCtx) c17Case(kind string, x []byte) {
 	cls := make([]byte, 0, len(x)+2)
 	nb := 0
 	for l := 1; l <= len(x)+1; l++ {
+		// long inputs: every limit up to 600, then every 8th and the neighbourhood of every multiple of 512
+		if l > 600 && l%8 != 0 && (l+1)%512 > 2 && l <= len(x)-1 {
+			if len(cls) > 0 {
+				cls = append(cls, cls[len(cls)-1]) // keep the string indexed by limit: repeat the previous class
+			}
+			continue
+		}
 		m, pan := detectAt(x, uint32(l))
 		ch := byte('P')
 		if pan == nil && m != nil {
@@ -141,7 +148,7 @@ func (c *runCtx) c17Case(kind string, x []byte) {
 
 func runC17(c *runCtx) {
 	seeds := allSeeds(c.rng, "/repo")
-	maxLen := 700
+	maxLen := 1700
 	reps := 1
 	if c.tier == "thorough" {
 		maxLen = 4200
